@@ -31,6 +31,7 @@ ASSUMPTIONS = [
     'is NumPy\'s own on concrete coordinates)',
     'with an explicit caller list only the channel list and the column alignment are claimed',
     'sparse tables: entries in [-1, nc), distinct apart from -1; sparse template values on a 1/4 grid in [-8, 8]',
+    'forms added after seeding rounds: earlier get_template calls with the other whitening flag / threshold on the same model; channel positions stored as uint32',
 ]
 STUBS = []
 OUTSIDE = ['float32 rounding', 'symbolic whitening matrices', 'symbolic geometries']
